@@ -147,6 +147,10 @@ def same_row(exp_row, got_row):
     for k in set(e) | set(g):
         if not same(e.get(k), g.get(k)):
             return k
+    # the documented normalisation itself: a top-level sequence is read back as a tuple (the 'rewards' column is exempt in the decoder)
+    for k in e:
+        if isinstance(e[k], (list, tuple)) and k != "rewards" and not isinstance(g.get(k), tuple):
+            return k
     return None
 
 
@@ -165,7 +169,7 @@ class C07:
     assumptions = ["row values are JSON-representable (plus tuples); nested dict keys are strings; top-level keys have distinct str()",
                    "reserved column names (ids, index, _packed) are not used as row keys",
                    "float comparison allows 1e-5 (either rounding direction of the documented 5-decimals normalisation)",
-                   "sequence type (list vs tuple) and int-vs-float representation never decide a violation",
+                   "the type of nested sequences (list vs tuple) and int-vs-float representation never decide a violation; top-level sequences must be read back as tuples (the rewards column aside)",
                    "interruption after the experiment record, at a record boundary or inside the next record (exhaustive torn-tail offsets belong to C02)"]
     real_components = ["Experiment.run", "TransactionEncode/Decode/Result", "coba.json", "minimize", "DiskSink/DiskSource (plain and .gz, real files)",
                        "ListSink/ListSource", "MakeTasks (restore path)", "ProcessTasks", "CobaMultiprocessor/Multiprocessor", "Table.insert"]
@@ -411,6 +415,11 @@ class C07:
                     if not same({str(a): b for a, b in p.items()}.get(k), g.get(k)):
                         vios.append(vio("params_value", f"{label}: {what} {seen[c]} param {k!r}: component says "
                                                         f"{_sr({str(a): b for a, b in p.items()}.get(k))}, table has {_sr(g.get(k))}"))
+                        return
+                for k, v in p.items():
+                    if isinstance(v, (list, tuple)) and not isinstance(g.get(str(k)), tuple):
+                        vios.append(vio("params_value", f"{label}: {what} {seen[c]} param {k!r}: a top-level sequence is read back as "
+                                                        f"{type(g.get(str(k))).__name__} {_sr(g.get(str(k)))}, not as a tuple"))
                         return
         check_params(res.environments, "environment_id", [e for e, _, _ in exp._triples], SafeEnvironment, "environment")
         check_params(res.learners, "learner_id", [l for _, l, _ in exp._triples], SafeLearner, "learner")
